@@ -385,14 +385,12 @@ Qed.
 (* ================================================================== *)
 (* 5. get_prev_point                                                   *)
 (* ================================================================== *)
-Lemma excluded_opt_some s r : excluded_opt s (Some r) = Ok (excluded s r).
+Lemma excluded_opt_some s r : excluded_opt s (Some r) = excluded s r.
 Proof. unfold excluded_opt, excluded. destruct (s_excl s); reflexivity. Qed.
 
-Lemma excluded_opt_none_ok s b : excluded_opt s None = Ok b -> b = false.
-Proof.
-  unfold excluded_opt, excl_has_opt. destruct (s_excl s) as [x|]; [|intros [= <-]; reflexivity].
-  destruct (existsb _ (snd x)); [discriminate|intros [= <-]; reflexivity].
-Qed.
+(* `None in self.exclusions` is False *)
+Lemma excluded_opt_none s : excluded_opt s None = false.
+Proof. unfold excluded_opt. destruct (s_excl s); reflexivity. Qed.
 
 Lemma greatest_lt_skip s k p prev r :
   truthy_step (c_step (s_core s)) = Some k -> 0 < k ->
@@ -429,7 +427,7 @@ Proof.
                else p - (p - c_start (s_core s)) mod k) in *.
   destruct (in_bounds s prev) as [r0|] eqn:Eb.
   - apply in_bounds_some in Eb. destruct Eb as (-> & Hlo & Hhi).
-    rewrite excluded_opt_some. cbn [bind].
+    rewrite excluded_opt_some.
     destruct (excluded s prev) eqn:Ex.
     + intros H. eapply greatest_lt_skip; eauto. apply IH; [|exact H].
       intros e He. specialize (Hhi e He). lia.
@@ -437,8 +435,7 @@ Proof.
       * apply (member_stepped s k prev Hk). auto.
       * intros m' Hm' Hpm'. rewrite (member_stepped s k m' Hk) in Hm'.
         destruct Hm' as (_ & _ & Hgm & _). auto.
-  - destruct (excluded_opt s None) as [b|er] eqn:Eo; cbn [bind]; [|discriminate].
-    apply excluded_opt_none_ok in Eo. subst b. intros [= <-]. cbn.
+  - rewrite excluded_opt_none. intros [= <-]. cbn.
     intros m' Hm'. rewrite (member_stepped s k m' Hk) in Hm'.
     destruct Hm' as (Hlo' & Hhi' & Hgm & _).
     destruct (Z.le_gt_cases p m') as [|Hgt]; [assumption|exfalso].
@@ -454,43 +451,13 @@ Proof.
   intros Ho Hf. destruct fuel as [|fl]; [congruence|]. cbn. unfold oneoff in Ho. rewrite Ho. reflexivity.
 Qed.
 
-(* get_prev_point can only raise TypeError, and only through a stepped
-   exclusion sequence *)
-Definition no_stepped_excl (s : seq) : Prop :=
-  forall x c, s_excl s = Some x -> In c (snd x) -> truthy_step (c_step c) = None.
-
-Lemma excluded_opt_total s o : no_stepped_excl s -> exists b, excluded_opt s o = Ok b.
-Proof.
-  intros Hn. destruct o as [r|]; [rewrite excluded_opt_some; eauto|].
-  unfold excluded_opt, excl_has_opt. destruct (s_excl s) as [x|] eqn:Ex; [|eauto].
-  destruct (existsb _ (snd x)) eqn:E; [|eauto].
-  apply existsb_exists in E. destruct E as [c [Hc Ht]].
-  rewrite (Hn x c Ex Hc) in Ht. discriminate.
-Qed.
-
-Lemma excluded_opt_err s o e : excluded_opt s o = Err e -> e = EType.
-Proof.
-  destruct o as [r|]; [rewrite excluded_opt_some; discriminate|].
-  unfold excluded_opt, excl_has_opt. destruct (s_excl s) as [x|]; [|discriminate].
-  destruct (existsb _ (snd x)); [intros [= <-]; reflexivity|discriminate].
-Qed.
-
-Lemma prev_errors fuel s p e : get_prev_point fuel s p = Err e -> e = EFuel \/ e = EType.
+(* get_prev_point never raises *)
+Lemma prev_no_error fuel s p e : get_prev_point fuel s p = Err e -> e = EFuel.
 Proof.
   revert p. induction fuel as [|fl IH]; intros p; cbn [get_prev_point]; [intros [= <-]; auto|].
   destruct (truthy_step (c_step (s_core s))) as [k|]; [|discriminate].
-  destruct (excluded_opt s _) as [b|er] eqn:Eo; cbn [bind].
-  - destruct b; [|discriminate]. destruct (in_bounds s _); [apply IH|discriminate].
-  - intros [= <-]. right. eapply excluded_opt_err; eauto.
-Qed.
-
-Lemma prev_no_type_error fuel s p : no_stepped_excl s -> get_prev_point fuel s p <> Err EType.
-Proof.
-  intros Hn. revert p. induction fuel as [|fl IH]; intros p; cbn [get_prev_point]; [discriminate|].
-  destruct (truthy_step (c_step (s_core s))) as [k|]; [|discriminate].
-  destruct (excluded_opt_total s (in_bounds s (if (p - c_start (s_core s)) mod k =? 0 then p - k
-               else p - (p - c_start (s_core s)) mod k)) Hn) as [b ->]. cbn [bind].
-  destruct b; [|discriminate]. destruct (in_bounds s _); [apply IH|discriminate].
+  destruct (excluded_opt s _); [|discriminate].
+  destruct (in_bounds s _); [apply IH|discriminate].
 Qed.
 
 Lemma prev_fuel fuel s k p :
@@ -501,10 +468,24 @@ Proof.
   rewrite Hk. destruct (grid_prev (c_start (s_core s)) k p Hpos) as (_ & Hlt & _).
   set (prev := if (p - c_start (s_core s)) mod k =? 0 then p - k
                else p - (p - c_start (s_core s)) mod k) in *.
-  destruct (excluded_opt s (in_bounds s prev)) as [b|er] eqn:Eo; cbn [bind].
-  - destruct b; [|discriminate]. destruct (in_bounds s prev) as [r0|] eqn:Eb; [|discriminate].
-    apply in_bounds_some in Eb. destruct Eb as (-> & Hlo & _). apply IH. lia.
-  - apply excluded_opt_err in Eo. subst. discriminate.
+  destruct (excluded_opt s (in_bounds s prev)); [|discriminate].
+  destruct (in_bounds s prev) as [r0|] eqn:Eb; [|discriminate].
+  apply in_bounds_some in Eb. destruct Eb as (-> & Hlo & _). apply IH. lia.
+Qed.
+
+(* below the start point there is nothing *)
+Lemma prev_at_start fuel s r :
+  (exists k, stepped s k) \/ oneoff s ->
+  get_prev_point fuel s (c_start (s_core s)) = Ok r -> r = None.
+Proof.
+  intros Hreg. destruct fuel as [|fl]; cbn [get_prev_point]; [discriminate|].
+  destruct Hreg as [[k [Hk Hpos]]|Ho].
+  - rewrite Hk. rewrite Z.sub_diag, Z.mod_0_l by lia. cbn [Z.eqb].
+    assert (Eb : in_bounds s (c_start (s_core s) - k) = None).
+    { unfold in_bounds, in_bounds_core.
+      replace (c_start (s_core s) <=? c_start (s_core s) - k) with false by lia. reflexivity. }
+    rewrite Eb, excluded_opt_none. intros [= <-]. reflexivity.
+  - unfold oneoff in Ho. rewrite Ho. intros [= <-]. reflexivity.
 Qed.
 
 (* ================================================================== *)
@@ -633,7 +614,7 @@ Lemma stop_stepped fuel s k e r :
   stepped s k -> stop_on_grid s k -> c_stop (s_core s) = Some e -> c_start (s_core s) <= e ->
   get_stop_point fuel s = Ok r -> is_max (seq_member s) r.
 Proof.
-  intros Hs Hsg He Hne. unfold get_stop_point. rewrite He, excluded_opt_some. cbn [bind].
+  intros Hs Hsg He Hne. unfold get_stop_point. rewrite He, excluded_opt_some.
   destruct (excluded s e) eqn:Ex.
   - intros H. apply (prev_stepped fuel s k e r Hs Hsg) in H.
     2:{ intros e' He'. rewrite He in He'. injection He' as <-. destruct Hs. lia. }
@@ -654,7 +635,7 @@ Lemma stop_oneoff fuel s r :
   oneoff s -> c_stop (s_core s) = Some (c_start (s_core s)) ->
   get_stop_point fuel s = Ok r -> is_max (seq_member s) r.
 Proof.
-  intros Ho He. unfold get_stop_point. rewrite He, excluded_opt_some. cbn [bind].
+  intros Ho He. unfold get_stop_point. rewrite He, excluded_opt_some.
   destruct (excluded s (c_start (s_core s))) eqn:Ex.
   - destruct fuel as [|fl]; [discriminate|]. rewrite prev_oneoff by (auto; discriminate).
     intros [= <-]. cbn. intros m' Hm'. pose proof (member_not_excluded s m' Hm').
@@ -668,9 +649,7 @@ Qed.
 Lemma stop_unbounded fuel s r :
   c_stop (s_core s) = None -> get_stop_point fuel s = Ok r -> r = None.
 Proof.
-  intros He. unfold get_stop_point. rewrite He.
-  destruct (excluded_opt s None) as [b|er]; cbn [bind]; [|discriminate].
-  destruct b; intros [= <-]; reflexivity.
+  intros He. unfold get_stop_point. rewrite He, excluded_opt_none. intros [= <-]. reflexivity.
 Qed.
 
 (* ================================================================== *)
@@ -705,60 +684,46 @@ Lemma nprev_off fuel s p r :
   regular s -> is_on_sequence s p = false ->
   get_nearest_prev_point fuel s p = Ok r -> is_greatest_lt (seq_member s) p r.
 Proof.
-  intros Hreg. revert p r.
-  induction fuel as [|fl IH]; intros p r Hoff; cbn [get_nearest_prev_point]; [discriminate|].
-  rewrite Hoff.
+  intros Hreg Hoff. unfold get_nearest_prev_point. rewrite Hoff.
   assert (Hnp : ~ seq_member s p).
   { intros Hm. apply member_on_sequence in Hm. congruence. }
-  destruct (nprev_loop (S fl) s p (in_bounds s (c_start (s_core s))) None) as [prev|er] eqn:El;
+  destruct (nprev_loop fuel s p (in_bounds s (c_start (s_core s))) None) as [prev|er] eqn:El;
     cbn [bind]; [|discriminate].
-  cbn [nprev_loop] in El.
+  destruct fuel as [|fl]; [discriminate|]. cbn [nprev_loop] in El.
   destruct (in_bounds s (c_start (s_core s))) as [a0|] eqn:Eb.
   - apply in_bounds_some in Eb. destruct Eb as (-> & _ & Hhi).
     destruct (c_start (s_core s) >? p) eqn:Eap.
-    + injection El as <-.
-      destruct (excluded_opt s None) as [b|er] eqn:Eo; cbn [bind]; [|discriminate].
-      apply excluded_opt_none_ok in Eo. subst b. intros [= <-]. cbn.
+    + injection El as <-. rewrite excluded_opt_none. intros [= <-]. cbn.
       intros m' Hm'. pose proof (member_ge_start s m' Hm'). lia.
     + destruct (get_next_point (S fl) s (c_start (s_core s))) as [nx|er] eqn:En; cbn [bind] in El; [|discriminate].
       apply next_regular in En; [|exact Hreg|lia].
       apply nprev_loop_some in El; [|exact Hreg|lia|lia|exact En].
       destruct El as (y & -> & Hyp & Hor & Hall).
-      rewrite excluded_opt_some. cbn [bind].
+      rewrite excluded_opt_some.
       destruct (excluded s y) eqn:Ex.
-      * (* only the start point itself can be an excluded previous point *)
+      * (* only the start point itself can be an excluded previous point:
+           the answer is get_prev_point(start) = None, and indeed nothing is left *)
         assert (Hy : y = c_start (s_core s)).
         { destruct Hor as [|Hm]; [assumption|]. apply member_not_excluded in Hm. congruence. }
-        subst y. destruct (c_start (s_core s) =? p) eqn:Eq; [discriminate|].
-        intros H. apply IH in H.
-        2:{ unfold is_on_sequence. rewrite Ex. reflexivity. }
-        assert (Hlt : forall m', seq_member s m' -> m' < p -> m' < c_start (s_core s)).
-        { intros m' Hm' Hl. specialize (Hall m' Hm' ltac:(lia)).
-          destruct (Z.eq_dec m' (c_start (s_core s))) as [->|]; [|lia].
-          apply member_not_excluded in Hm'. congruence. }
-        destruct r as [m|]; cbn in *.
-        -- destruct H as (Hm & Hma & Hmax). split; [exact Hm|split; [lia|]].
-           intros m' Hm' Hl. apply Hmax; auto.
-        -- intros m' Hm'. specialize (H m' Hm').
-           destruct (Z.le_gt_cases p m') as [|Hgt]; [assumption|].
-           specialize (Hlt m' Hm' Hgt). lia.
+        subst y. intros H. apply prev_at_start in H; [|exact Hreg]. subst r. cbn.
+        intros m' Hm'. destruct (Z.le_gt_cases p m') as [|Hgt]; [assumption|exfalso].
+        specialize (Hall m' Hm' ltac:(lia)). pose proof (member_ge_start s m' Hm').
+        assert (m' = c_start (s_core s)) by lia. subst m'.
+        apply member_not_excluded in Hm'. congruence.
       * intros [= <-]. cbn.
         assert (Hmy : seq_member s y).
         { destruct Hor as [->|]; [|assumption]. apply start_member; auto. }
         split; [exact Hmy|split].
         -- destruct (Z.eq_dec y p) as [->|]; [contradiction|lia].
         -- intros m' Hm' Hl. apply Hall; [exact Hm'|lia].
-  - injection El as <-.
-    destruct (excluded_opt s None) as [b|er] eqn:Eo; cbn [bind]; [|discriminate].
-    apply excluded_opt_none_ok in Eo. subst b. intros [= <-]. cbn.
+  - injection El as <-. rewrite excluded_opt_none. intros [= <-]. cbn.
     intros m' Hm'. exfalso. apply in_bounds_none in Eb. destruct Eb as [|[e [He Hlt]]]; [lia|].
     pose proof (member_ge_start s m' Hm'). pose proof (member_le_stop s m' e Hm' He). lia.
 Qed.
 
 Lemma nprev_on fuel s p :
-  is_on_sequence s p = true ->
-  get_nearest_prev_point fuel s p = match fuel with O => Err EFuel | S _ => get_prev_point fuel s p end.
-Proof. intros H. destruct fuel as [|fl]; [reflexivity|]. cbn [get_nearest_prev_point]. rewrite H. reflexivity. Qed.
+  is_on_sequence s p = true -> get_nearest_prev_point fuel s p = get_prev_point fuel s p.
+Proof. intros H. unfold get_nearest_prev_point. rewrite H. reflexivity. Qed.
 
 Lemma nprev_stepped fuel s k p r :
   stepped s k -> stop_on_grid s k ->
@@ -766,8 +731,7 @@ Lemma nprev_stepped fuel s k p r :
   get_nearest_prev_point fuel s p = Ok r -> is_greatest_lt (seq_member s) p r.
 Proof.
   intros Hs Hsg Hp. destruct (is_on_sequence s p) eqn:Eon.
-  - rewrite nprev_on by exact Eon. destruct fuel as [|fl]; [discriminate|].
-    apply (prev_stepped (S fl) s k p r); auto.
+  - rewrite nprev_on by exact Eon. apply (prev_stepped fuel s k p r); auto.
   - apply nprev_off; [left; eauto|exact Eon].
 Qed.
 
@@ -781,6 +745,31 @@ Proof.
     destruct (excluded s p); [discriminate|].
     intros m' Hm'. apply (member_oneoff s m' Ho) in Hm'. lia.
   - apply nprev_off; [right; exact Ho|exact Eon].
+Qed.
+
+(* get_nearest_prev_point never raises either *)
+Lemma nprev_loop_no_error fuel s p sp prev e : nprev_loop fuel s p sp prev = Err e -> e = EFuel.
+Proof.
+  revert sp prev. induction fuel as [|fl IH]; intros sp prev; cbn [nprev_loop]; [intros [= <-]; auto|].
+  destruct sp as [x|]; [|discriminate]. destruct (x >? p); [discriminate|].
+  destruct (get_next_point (S fl) s x) as [nx|er] eqn:En; cbn [bind].
+  - apply IH.
+  - intros [= <-]. eapply next_no_error; eauto.
+Qed.
+
+Lemma nprev_no_error fuel s p e : get_nearest_prev_point fuel s p = Err e -> e = EFuel.
+Proof.
+  unfold get_nearest_prev_point. destruct (is_on_sequence s p); [apply prev_no_error|].
+  destruct (nprev_loop fuel s p _ None) as [prev|er] eqn:El; cbn [bind].
+  - destruct (excluded_opt s prev); [|discriminate].
+    destruct prev; [apply prev_no_error|discriminate].
+  - intros [= <-]. eapply nprev_loop_no_error; eauto.
+Qed.
+
+Lemma stop_no_error fuel s e : get_stop_point fuel s = Err e -> e = EFuel.
+Proof.
+  unfold get_stop_point. destruct (excluded_opt s _); [|discriminate].
+  destruct (c_stop (s_core s)); [apply prev_no_error|discriminate].
 Qed.
 
 (* ================================================================== *)
